@@ -175,6 +175,15 @@ def run(argv):
     for tag, d, be in (("p1", descs["upper"], None), ("p2", descs["default"], None), ("p2alone", descs["default"], None),
                        ("ice1", ice, {"GCO": 999.0}), ("ice2", ice, {}), ("ice2alone", ice, {})):
         make_cli_project(cli_root / tag, d, "proj", binding=be)
+    # the user binding-energy table is read when the code is generated: the same Network object rendered before and after the
+    # table changes must give what a fresh build under the new table gives
+    eb = {"GCO": 999.0}
+    jobs.append(("eb-fresh", {"steps": [{"op": "binding", "values": eb}, {"op": "build", "id": "A", "desc": ice},
+                                        {"op": "render", "id": "A", "backend": BACKENDS[0], "tag": ["ice-eb999", "dense"]}]}, 0))
+    jobs.append(("eb-after-first-render", {"steps": [{"op": "build", "id": "A", "desc": ice},
+                                                     {"op": "render", "id": "A", "backend": BACKENDS[0], "tag": ["ice-eb-table", "dense"]},
+                                                     {"op": "binding", "values": eb},
+                                                     {"op": "render", "id": "A", "backend": BACKENDS[0], "tag": ["ice-eb999", "dense"]}]}, 1))
     # a replacement table belongs to its own project: the same upper-case network with and without one
     REPL = {"E": "e", "HE": "He", "MG": "Mg", "SI": "Si", "CL": "Cl"}
     for tag, rp in (("up-repl", REPL), ("up-plain", None), ("up-plain-alone", None), ("up-repl-alone", REPL)):
